@@ -90,6 +90,7 @@ func loadFindings() []Finding {
 
 type Baseline struct {
 	Obligations map[string][]string `json:"obligations"` // fn -> obligation names proved on the reference tree
+	Open        map[string][]string `json:"open"`        // fn -> obligations NOT discharged (or only slowly) on the reference tree: not covered by the baseline check
 }
 
 func loadBaseline(id string) *Baseline {
@@ -209,7 +210,7 @@ func cmdCheck(args []string) {
 
 	replayDir := filepath.Join(verifDir, "replays", id)
 	os.MkdirAll(replayDir, 0o755)
-	newBase := &Baseline{Obligations: map[string][]string{}}
+	newBase := &Baseline{Obligations: map[string][]string{}, Open: map[string][]string{}}
 	var violLines, knownLines []string
 	for _, t := range tvcs {
 		vc := t.vc
@@ -241,13 +242,20 @@ func cmdCheck(args []string) {
 				res.obligations++
 				res.discharged++
 				res.perSolver[ob.Solver]++
-				newBase.Obligations[vc.fnName] = append(newBase.Obligations[vc.fnName], ob.Name)
+				if ob.Secs <= 2.5 || ob.Solver == "trivial" {
+					// the baseline keeps only obligations that discharge fast, so that a loaded machine
+					// cannot turn a recorded obligation into a timeout (a false alarm)
+					newBase.Obligations[vc.fnName] = append(newBase.Obligations[vc.fnName], ob.Name)
+				} else if writeBaseline {
+					newBase.Open[vc.fnName] = append(newBase.Open[vc.fnName], ob.Name)
+				}
 				if len(res.samples) < 6 && ob.Solver != "trivial" {
 					res.samples = append(res.samples, map[string]interface{}{"function": vc.fnName, "obligation": ob.Name, "what": ob.Desc, "source": ob.Src, "smt_sha256_prefix": ob.SMTHash, "verdict": ob.Result, "backend": ob.Solver, "seconds": round3(ob.Secs)})
 				}
 				continue
 			}
 			if writeBaseline {
+				newBase.Open[vc.fnName] = append(newBase.Open[vc.fnName], ob.Name)
 				continue
 			}
 			if len(vc.unsupported) > 0 {
@@ -284,6 +292,25 @@ func cmdCheck(args []string) {
 		os.WriteFile(filepath.Join(verifDir, "baseline", id+".json"), data, 0o644)
 		fmt.Printf("baseline written: %d obligations over %d functions\n", res.discharged, len(newBase.Obligations))
 		return
+	}
+	if len(base.Obligations) > 0 {
+		nrec, nopen := 0, 0
+		byKind := map[string]int{}
+		for _, v := range base.Obligations {
+			nrec += len(v)
+		}
+		for _, v := range base.Open {
+			nopen += len(v)
+			for _, o := range v {
+				k := o
+				if i := strings.Index(o, "@"); i > 0 {
+					k = o[:i]
+				}
+				byKind[k]++
+			}
+		}
+		res.extra["baseline"] = map[string]interface{}{"recorded_obligations": nrec, "open_obligations_not_covered": nopen, "open_by_kind": byKind,
+			"meaning": "baseline mode: the obligations that discharged (fast) on the reference tree must keep discharging; the open ones were never proved, so a defect behind them is not excluded by this check (listed per function in baseline/" + id + ".json)"}
 	}
 	wall := time.Since(t0).Seconds()
 	writeEvidence(id, tier, seed, pc, res, wall, len(violLines))
